@@ -200,6 +200,7 @@ impl Monitor for C13 {
     }
     fn streams(&self, tier: Tier) -> Vec<StreamSpec> {
         let mut s = vec![stream("c13-valid", tier.n(40, 800_000, 25_000_000)), stream("c13-pairs", tier.n(24, 48_000, 2_400_000))];
+        s.push(stream("c13-echo", tier.n(24, 24 * 6 * 40, 24 * 6 * 4000)));
         if tier != Tier::Miri {
             s.push(spec::engine::exhaustive("v2-collide", 2 * spec::collide::v2_pairs().len() as u64));
         }
@@ -212,7 +213,49 @@ impl Monitor for C13 {
     fn run_case(&self, stream: &str, idx: u64, seed: u64, rec: &mut Recorder) {
         let mut rng = Rng::for_case(seed, stream_id(stream), idx);
         let mut b = Vec::new();
-        if stream == "v2-collide" {
+        if stream == "c13-echo" {
+            // relations between the parts: the TLV section repeats the header's own address block
+            // (once, twice, or followed / preceded by something else), or its own fixed part
+            let (vc, fp) = valid_ctl(idx);
+            let fam = fp >> 4;
+            let blk = spec::v2::address_block(&mut rng, fam);
+            let mut sec: Vec<u8> = Vec::new();
+            match (idx / 24) % 6 {
+                0 => sec.extend_from_slice(&blk),
+                1 => {
+                    sec.extend_from_slice(&blk);
+                    sec.extend_from_slice(&blk);
+                }
+                2 => {
+                    sec.extend_from_slice(&blk);
+                    sec.extend_from_slice(&[0x04, 0, 1, 7]);
+                }
+                3 => {
+                    sec.extend_from_slice(&[0x04, 0, 1, 7]);
+                    sec.extend_from_slice(&blk);
+                }
+                4 => {
+                    sec.extend_from_slice(&spec::v2::SIG);
+                    sec.extend_from_slice(&[vc, fp, 0, 0]);
+                }
+                _ => {
+                    // a block that is itself one well-formed TLV: type, length = block size - 3
+                    sec.extend_from_slice(&blk);
+                    if sec.len() >= 3 {
+                        let n = sec.len() - 3;
+                        sec[1] = (n >> 8) as u8;
+                        sec[2] = n as u8;
+                    }
+                }
+            }
+            // the address block itself equals the section in case 5 (both halves are that TLV)
+            let ablk = if (idx / 24) % 6 == 5 { sec.clone() } else { blk };
+            let len = ablk.len() + sec.len();
+            b.extend_from_slice(&spec::v2::SIG);
+            b.extend_from_slice(&[vc, fp, (len >> 8) as u8, len as u8]);
+            b.extend_from_slice(&ablk);
+            b.extend_from_slice(&sec);
+        } else if stream == "v2-collide" {
             b = spec::collide::v2_case(idx);
         } else if stream == "v2-sweep" {
             spec::v2::sweep_case(idx, &mut rng, &mut b);
